@@ -9,6 +9,7 @@
 #include <blocc/value.h>
 
 #include <cmath>
+#include <cstring>
 #include <cstdio>
 #include <string>
 
@@ -136,9 +137,16 @@ static void dump_value(std::string& o, Value& v0, int depth = 0)
   case Type::COMPLEX:
   {
     Complex * c = v.complex();
-    char b[64];
-    snprintf(b, sizeof(b), "o#%u@%p", (unsigned)c->typeId(), c->instance());
-    o += b;
+    const char * name = c->typeIdName();
+    o += "o#";
+    o += (name ? name : "?");
+    if (name && strncmp(name, "vmod", 4) == 0 && c->instance())
+    {
+      /* objects of the verification module start with a magic number and an id (reading a destroyed one is an ASan error) */
+      struct Head { unsigned magic; int id; };
+      Head * h = static_cast<Head*>(c->instance());
+      o += (h->magic == 0x564d4f44u ? ":" + std::to_string(h->id) : std::string(":DEAD"));
+    }
     break;
   }
   default:
